@@ -166,9 +166,11 @@ struct dev_model {
 	unsigned int npread, npwrite, nseek;
 	int err;		/* errno */
 	unsigned char disk;	/* device byte at L* */
+	int last_write_short;	/* the most recent write()/pwrite64() came back short (0 <= r < n) */
 	unsigned char *btrack;	/* the byte of the bounce buffer that corresponds to L* in the current aligned unit (set by read()) */
 } GD;
 #define g_btrack GD.btrack
+#define g_last_write_short GD.last_write_short
 const unsigned char *g_utrack;	/* the byte of the caller's buffer that corresponds to L* (0: request does not cover L*) */
 #define g_disk GD.disk
 #define g_eof GD.eof
@@ -189,7 +191,6 @@ const unsigned char *g_buf0;
 #define RAW_DEVICE_FRAME , GD; data->bounce != 0: __CPROVER_object_whole(data->bounce)
 #define RAW_DEVICE_GHOST_IS_STRUCT
 #define IN_EXTRA long long eof, pos;
-#define CFG_OWN_MEMCPY
 
 /*
  * Invariants of the two bounce loops (expanded inside the real functions; size, buf, location, aligned_blk, align_size,
@@ -205,7 +206,7 @@ const unsigned char *g_buf0;
 	__CPROVER_loop_invariant(0 <= size && size <= g_size0 && buf == g_buf0 + DONE && location == g_loc0 + DONE) \
 	__CPROVER_loop_invariant(0 <= offset && offset < align_size && (size == g_size0 || offset == 0)) \
 	__CPROVER_loop_invariant(size == 0 || (long long)(aligned_blk * align_size) + offset == location) \
-	__CPROVER_loop_invariant(POS_OK && BTRACK_OK) \
+	__CPROVER_loop_invariant(POS_OK && BTRACK_OK && g_last_write_short == 0) \
 	__CPROVER_loop_invariant(ADDR_IN(g_loc0, location) ? g_disk == g_buf0[(long long)g_addr - g_loc0] : g_disk == g_disk0) \
 	__CPROVER_loop_invariant((long long)g_addr < g_eof || g_disk == 0 || ADDR_IN(g_loc0, location)) \
 	__CPROVER_decreases(size)
@@ -292,6 +293,7 @@ ssize_t pwrite64(int fd, const void *buf, size_t n, __off64_t off)
 {
 	g_npwrite++; g_log_off = off; g_log_len = n;
 	long r = xfer_result(n);
+	g_last_write_short = (r >= 0 && (unsigned long)r < n);
 	dev_write(buf, r, off);
 	return r;
 }
@@ -309,6 +311,7 @@ ssize_t pread64(int fd, void *buf, size_t n, __off64_t off)
 ext2_loff_t ext2fs_llseek(int fd, ext2_loff_t off, int whence)
 {
 	g_nseek++; g_log_off = off;
+	g_last_write_short = 0;		/* a later device call */
 	if (nondet_int()) {
 		g_errno = nondet_int();		/* may be 0: the code then reports EXT2_ET_LLSEEK_FAILED */
 		ASSUME(g_errno >= 0);
@@ -322,6 +325,7 @@ ssize_t write(int fd, const void *buf, size_t n)
 {
 	g_log_len = n;
 	long r = xfer_result(n);
+	g_last_write_short = (r >= 0 && (unsigned long)r < n);
 	dev_write(buf, r, g_pos);
 	if (r > 0)
 		g_pos += r;
@@ -332,6 +336,7 @@ ssize_t write(int fd, const void *buf, size_t n)
 ssize_t read(int fd, void *buf, size_t n)
 {
 	g_log_len = n;
+	g_last_write_short = 0;		/* a later device call */
 	long r;
 	if (nondet_int()) {
 		g_errno = nondet_int();
@@ -374,6 +379,7 @@ static void build_raw(unsigned long maxreq)
 		DATA.bounce = malloc(CFG_BS > CFG_ALIGN ? CFG_BS : CFG_ALIGN);
 		ASSUME(DATA.bounce != 0);
 	}
+	GD = (struct dev_model){ 0 };
 	g_bstar = IN.bstar; g_ostar = IN.ostar; g_disk = IN.disk;
 	g_addr = IN.bstar * CFG_BS + IN.ostar + (unsigned long long)IN.offset;
 	g_eof = IN.eof; g_pos = IN.pos;
@@ -411,6 +417,7 @@ void h_raw_write(void)
 	}
 #endif
 	CHECK(r == 0 || r == EXT2_ET_SHORT_WRITE || r == EXT2_ET_LLSEEK_FAILED || r == g_errno, "failure codes: errno of the failing call, SHORT_WRITE or LLSEEK_FAILED");
+	CHECK(!g_last_write_short || r == EXT2_ET_SHORT_WRITE, "a short write ends the request with EXT2_ET_SHORT_WRITE");
 	REACH("end");
 }
 
